@@ -287,32 +287,91 @@ func c20Mixed(withBounds bool) func(r *gen.R, noise bool, a c20Args, n int) ([]b
 	}
 }
 
+// c20ChangeBody: a changeset download. The changeset's n operations are laid out as action
+// blocks the way the API does it — one block per element in changeset order, so blocks of one
+// action repeat and interleave with the others — or merged into larger runs, or grouped per
+// action; empty blocks may be strewn in. The expected value is derived from the block sequence
+// (per action and element kind: document order).
 func c20ChangeBody(r *gen.R, noise bool, a c20Args, n int) ([]byte, any) {
-	c := apixml.NewChange()
-	ids := apixml.DistinctIDs(r, n, 0)
-	for i, id := range ids {
-		var dst **osm.OSM
+	root := apixml.NewChange()
+	acts := []string{"create", "modify", "delete"}
+	r.Shuffle(3, func(i, j int) { acts[i], acts[j] = acts[j], acts[i] })
+	layout := r.Intn(4) // 0,1 per element with alternating actions; 2 random runs; 3 grouped
+	period := r.Pick(2, 3)
+	ops := make([]apixml.ChangeBlock, 0, n)
+	for i, id := range apixml.DistinctIDs(r, n, 0) {
+		act := acts[r.Intn(3)]
+		if layout <= 1 {
+			act = acts[i%period] // the same action comes back after another one
+		}
+		o := &osm.OSM{}
 		switch r.Intn(3) {
 		case 0:
-			dst = &c.Create
+			o.Nodes = append(o.Nodes, apixml.GenNode(r, id))
 		case 1:
-			dst = &c.Modify
+			o.Ways = append(o.Ways, apixml.GenWay(r, id))
 		default:
-			dst = &c.Delete
+			o.Relations = append(o.Relations, apixml.GenRelation(r, id))
 		}
-		if *dst == nil {
-			*dst = &osm.OSM{}
+		ops = append(ops, apixml.ChangeBlock{Action: act, O: o})
+	}
+	merge := func(dst, src *osm.OSM) {
+		dst.Nodes = append(dst.Nodes, src.Nodes...)
+		dst.Ways = append(dst.Ways, src.Ways...)
+		dst.Relations = append(dst.Relations, src.Relations...)
+	}
+	var blocks []apixml.ChangeBlock
+	switch layout {
+	case 0, 1:
+		blocks = ops
+	case 2:
+		for _, op := range ops {
+			if k := len(blocks) - 1; k >= 0 && blocks[k].Action == op.Action && r.Bool() {
+				merge(blocks[k].O, op.O)
+			} else {
+				blocks = append(blocks, op)
+			}
 		}
-		switch i % 3 {
-		case 0:
-			(*dst).Nodes = append((*dst).Nodes, apixml.GenNode(r, id))
-		case 1:
-			(*dst).Ways = append((*dst).Ways, apixml.GenWay(r, id))
-		default:
-			(*dst).Relations = append((*dst).Relations, apixml.GenRelation(r, id))
+	default:
+		for _, act := range []string{"create", "modify", "delete"} {
+			var b *apixml.ChangeBlock
+			for _, op := range ops {
+				if op.Action == act {
+					if b == nil {
+						b = &apixml.ChangeBlock{Action: act, O: &osm.OSM{}}
+					}
+					merge(b.O, op.O)
+				}
+			}
+			if b != nil {
+				blocks = append(blocks, *b)
+			}
 		}
 	}
-	return apixml.ChangeDoc(r, noise, c, r.Bool()), c
+	if r.Chance(0.4) {
+		for k := r.Range(1, 2); k > 0; k-- {
+			at := r.Intn(len(blocks) + 1)
+			blocks = append(blocks[:at], append([]apixml.ChangeBlock{{Action: acts[r.Intn(3)], O: &osm.OSM{}}}, blocks[at:]...)...)
+		}
+	}
+	return apixml.ChangeBlocksDoc(r, noise, root, blocks), apixml.ChangeOfBlocks(root, blocks)
+}
+
+// c20Norm removes distinctions the property does not make before two values are compared: in
+// an osm.Change an action without elements is the same whether nil or an empty document.
+func c20Norm(v any) any {
+	c, ok := v.(*osm.Change)
+	if !ok || c == nil {
+		return v
+	}
+	cp := *c
+	empty := eq.Dump(&osm.OSM{})
+	for _, p := range []**osm.OSM{&cp.Create, &cp.Modify, &cp.Delete} {
+		if *p != nil && eq.Dump(*p) == empty {
+			*p = nil
+		}
+	}
+	return &cp
 }
 
 func c20IDSet(name string) func(a c20Args) map[string]c20Param {
@@ -720,6 +779,7 @@ type c20Env struct {
 	n       int
 	restore func()
 	baseURL string // the base URL as configured (the documented default when left empty)
+	ft      *srv.FaultTripper
 }
 
 // materialise turns a URL-length argument into a concrete id list / search string, computed
@@ -764,11 +824,12 @@ func (e *c20Env) materialise(ep *c20EP, a c20Args) c20Args {
 	return a
 }
 
-func c20NewEnv(res *fw.Result, base c20Base, via string, seed uint64) *c20Env {
+func c20NewEnv(res *fw.Result, base c20Base, via string, seed uint64, noKeepAlive bool) *c20Env {
 	e := &c20Env{res: res, log: &mon.Log{}, base: base, via: via, seed: seed}
 	e.api = srv.NewAPI(e.log)
 	e.lim = &srv.APILimiter{Log: e.log}
-	client := e.api.Client()
+	e.ft = &srv.FaultTripper{Log: e.log}
+	client := e.api.ClientWith(e.ft, noKeepAlive)
 	baseURL := ""
 	e.baseURL = "http://api.openstreetmap.org/api/0.6"
 	if !base.defHost {
@@ -874,6 +935,96 @@ type c20Obs struct {
 	Err      string           `json:"error"`
 	ErrTypes []string         `json:"error_types"`
 	Doc      string           `json:"document_head"`
+	Fault    string           `json:"transport_fault,omitempty"`
+	Trips    []int64          `json:"roundtrip_seqs,omitempty"`
+}
+
+// c20Faults are the transport-level behaviours: client-side errors injected by the round
+// tripper and server-side hang-ups.
+func c20Faults() []string { return append(append([]string{}, srv.FaultModes...), srv.HangupModes...) }
+
+// faultCall performs one library call whose single GET meets a transport fault instead of an
+// HTTP answer. The statement's "exactly one GET ... after waiting on the rate limiter" is
+// unconditional; a transport error is not one of the listed statuses, so only the number of
+// GETs the library asks its http.Client for (RoundTrip calls), the limiter and "an error, no
+// data" are asserted — never the error's type. The server is configured to answer 200 with
+// one element, so a second attempt would be answered.
+func (e *c20Env) faultCall(ep *c20EP, a c20Args, o c20Opts, limMode, fault string) {
+	res := e.res
+	e.n++
+	a = e.materialise(ep, a)
+	r := gen.New(e.seed, fmt.Sprintf("c20/%s/%d", ep.name, e.n))
+	key := func(class string) string { return "C20/" + ep.name + "/transport-fault/" + class }
+	doc, _ := ep.body(r, false, a, 1)
+	e.api.Respond(200, "application/xml; charset=utf-8", doc)
+	serverSide := false
+	for _, m := range srv.HangupModes {
+		if m == fault {
+			serverSide = true
+		}
+	}
+	e.lim.Err = nil
+	e.ds.Limiter = nil
+	if limMode == "present" {
+		e.ds.Limiter = e.lim
+	}
+	if serverSide {
+		e.api.Hangup(fault)
+		e.ft.Arm("")
+	} else {
+		e.ft.Arm(fault)
+	}
+	e.api.Take()
+	e.lim.Take()
+	e.ft.Take()
+
+	got, err := c20Invoke(ep.name, e.ds, e.pkg, context.Background(), a, o)
+
+	reqs, waits, trips := e.api.Take(), e.lim.Take(), e.ft.Take()
+	e.ft.Arm("")
+	res.Event(int64(len(reqs) + len(waits) + len(trips)))
+	res.Add("calls", 1)
+	res.Add("calls_transport_fault", 1)
+	res.Add("roundtrips_seen", int64(len(trips)))
+	res.Add("requests_seen", int64(len(reqs)))
+	res.Add("limiter_waits_seen", int64(len(waits)))
+	res.SetMax("roundtrips_per_call", int64(len(trips)))
+	res.Put("endpoints", ep.name)
+	res.Put("transport_faults", fault)
+	obs := c20Obs{Endpoint: ep.name, Base: e.base.name, Via: e.via, Args: a, Opts: o, Limiter: limMode, Resp: c20Resp{200, 1, "xml"},
+		Requests: reqs, Waits: waits, Doc: apixml.Describe(doc), Fault: fault, Trips: trips}
+	if len(obs.Args.IDs) > 8 {
+		obs.Args.IDs = obs.Args.IDs[:8]
+	}
+	if err != nil {
+		obs.Err, obs.ErrTypes = err.Error(), c20ErrTypes(err)
+	}
+	if res.Sample == nil {
+		res.Sample = obs
+	}
+	viol := func(k, format string, args ...any) { res.Violate(k, fmt.Sprintf(format, args...), obs) }
+	res.Eval(fmt.Sprintf("%s|%s|%s|%s|%s|fault:%s", ep.name, o.Label, e.base.name, e.via, limMode, fault))
+
+	if len(trips) != 1 {
+		viol(key("roundtrip-count"), "transport fault %s: the call asked its http.Client for %d GETs, want exactly 1", fault, len(trips))
+	}
+	if limMode == "present" {
+		switch {
+		case len(waits) == 0:
+			viol(key("limiter-not-waited"), "transport fault %s: limiter set but Wait was never called", fault)
+		case len(trips) > 0 && waits[0] > trips[0]:
+			viol(key("limiter-order"), "transport fault %s: first Wait has sequence number %d, the first GET %d", fault, waits[0], trips[0])
+		case len(trips) > len(waits):
+			viol(key("limiter-count"), "transport fault %s: %d GETs after only %d Wait(s) on the limiter", fault, len(trips), len(waits))
+		}
+	}
+	if err == nil && fault != "close-in-body" {
+		// (a body cut in mid-air is the "truncated" corner: only "no data next to an error")
+		viol(key("no-error"), "transport fault %s: the call's GET got no response, yet no error was returned (data: %s)", fault, c20Trim(eq.Dump(got), 200))
+	}
+	if err != nil && !c20IsEmpty(got) {
+		viol(key("data-with-error"), "transport fault %s: error (%v) together with data: %s", fault, err, c20Trim(eq.Dump(got), 300))
+	}
 }
 
 // call performs one library call and evaluates the oracle on it.
@@ -919,11 +1070,14 @@ func (e *c20Env) call(ep *c20EP, a c20Args, o c20Opts, limMode string, rs c20Res
 	}
 	e.api.Take()
 	e.lim.Take()
+	e.ft.Arm("")
+	e.ft.Take()
 
 	got, err := c20Invoke(ep.name, e.ds, e.pkg, context.Background(), a, o)
 
 	reqs := e.api.Take()
 	waits := e.lim.Take()
+	res.Add("roundtrips_seen", int64(len(e.ft.Take())))
 	res.Event(int64(len(reqs) + len(waits)))
 	res.Add("calls", 1)
 	res.Add("requests_seen", int64(len(reqs)))
@@ -1118,7 +1272,7 @@ func (e *c20Env) call(ep *c20EP, a c20Args, o c20Opts, limMode string, rs c20Res
 			dataWithError(key("data-with-error/200"))
 			return
 		}
-		g, w := eq.Dump(got), eq.Dump(want)
+		g, w := eq.Dump(c20Norm(got)), eq.Dump(c20Norm(want))
 		if g != w {
 			viol(key("data"), "returned value differs from what the server wrote: %s", eq.Diff(w, g))
 		}
@@ -1165,7 +1319,7 @@ func c20Exec(c fw.Case) *fw.Result {
 			base = b
 		}
 	}
-	env := c20NewEnv(res, base, c.Str("via"), c.Seed)
+	env := c20NewEnv(res, base, c.Str("via"), c.Seed, c.Kind == "faults")
 	defer env.close()
 	resps := c20Responses()
 	do := func(cb c20Combo) {
@@ -1203,6 +1357,30 @@ func c20Exec(c fw.Case) *fw.Result {
 				}
 			}
 		}
+	case "faults":
+		// every transport fault x limiter absent / present, arguments and options rotating
+		k := 0
+		for _, fault := range c20Faults() {
+			for l := 0; l < 2; l++ {
+				o := ep.opts[k%len(ep.opts)]
+				if o.Invalid {
+					o = ep.opts[0]
+				}
+				env.faultCall(ep, ep.args[k%len(ep.args)], o, c20LimiterModes[l], fault)
+				k++
+			}
+		}
+	case "shapes":
+		// answer-shape repetition: many well-formed 200 answers of growing size, so that the
+		// PRNG-chosen document layouts (block order of a changeset download, element mix of
+		// map / full answers, writer noise) are all met
+		k := 0
+		for i := int64(0); i < c.Int("calls"); i++ {
+			for _, n := range []int{2, 3, 5, 9} {
+				env.call(ep, ep.args[k%len(ep.args)], ep.opts[0], c20LimiterModes[k%2], c20Resp{200, n, "xml"})
+				k++
+			}
+		}
 	case "slice":
 		all := c20Product(ep)
 		r := gen.New(c.Seed, "c20slice")
@@ -1219,16 +1397,27 @@ func c20Cases(tier string, seed uint64) []fw.Case {
 	mk := func(kind, ep, base, via string, i int, calls int64) fw.Case {
 		return fw.Case{Kind: kind, Seed: gen.Sub(seed, "c20/"+kind, i), S: map[string]string{"ep": ep, "base": base, "via": via}, P: map[string]int64{"calls": calls}}
 	}
+	shapes := func(calls int64, reps int) {
+		k := 0
+		for _, name := range []string{"changeset-download", "map", "way-full", "relation-full"} {
+			for j := 0; j < reps; j++ {
+				cs = append(cs, mk("shapes", name, c20Bases[k%len(c20Bases)].name, c20Vias[k%len(c20Vias)], k, calls))
+				k++
+			}
+		}
+	}
 	if tier == "thorough" {
 		i := 0
 		for _, ep := range eps {
 			for _, b := range c20Bases {
 				for _, v := range c20Vias {
 					cs = append(cs, mk("full", ep.name, b.name, v, i, 0))
+					cs = append(cs, mk("faults", ep.name, b.name, v, i, 0))
 					i++
 				}
 			}
 		}
+		shapes(100, 6)
 		return fw.Number(cs)
 	}
 	// quick: every endpoint x every status (and size) once, under rotating base / via ...
@@ -1246,6 +1435,11 @@ func c20Cases(tier string, seed uint64) []fw.Case {
 			}
 		}
 	}
+	// ... every transport fault on every endpoint, and the answer-shape repetition
+	for i, ep := range eps {
+		cs = append(cs, mk("faults", ep.name, c20Bases[(i+2)%len(c20Bases)].name, c20Vias[(i+1)%len(c20Vias)], i, 0))
+	}
+	shapes(12, 1)
 	// ... plus a PRNG-chosen slice of the full product
 	r := gen.New(seed, "c20slices")
 	for i := 0; i < 60; i++ {
@@ -1266,7 +1460,8 @@ func init() {
 			"x option set (none / At in UTC, in a zone, with nanoseconds; seven valid and two invalid notes option lists) x base URL (server root, /api/0.6, deep prefix, library default host, trailing slash) x access path (Datasource with client, Datasource falling back to DefaultDatasource.Client, package-level function) " +
 			"x limiter (absent, present, failing) x response (200 with 0/1/2/5 elements, 200 truncated, 204, and 400 403 404 409 410 414 429 500 503 each with an XML decoy body and a text body). " +
 			"thorough enumerates the whole product (one case per endpoint x base x access path, one httptest server per case); quick runs one sweep per endpoint over every response and limiter mode, one URL-length ladder per URL-growing endpoint (every length x limiter absent/present x 200 with 1 and 5 elements and a served 414) plus 60 PRNG-chosen slices of 32 calls. " +
-			"A signature is endpoint|options|base|access|limiter|status/body/size; distinct_nontrivial counts distinct signatures.",
+			"Transport faults (every endpoint x {round tripper returning EOF / unexpected EOF / ECONNRESET / EPIPE / ECONNREFUSED / timeout, first attempt only or always; server closing the connection before the status line, inside the header, inside the body} x limiter absent/present; connections not reused) are asserted on the number of RoundTrip calls, the limiter and 'an error, no data' only. Answer-shape repetition: changeset-download / map / way-full / relation-full with 2, 3, 5, 9 elements over and over (download: one block per element with alternating actions, random runs, grouped, empty blocks). " +
+			"A signature is endpoint|options|base|access|limiter|status/body/size (or fault:<mode>); distinct_nontrivial counts distinct signatures.",
 		Assumptions: []string{
 			"query strings are compared as parsed parameter sets (own parser); a trailing '?' or '&' and parameter order are insignificant; multi-fetch id lists are compared as sets",
 			"bbox components are compared numerically: a deviation above 1e-6 is class 'bbox' (wrong box); the library renders six decimals and the statement promises no decimal precision, so smaller deviations are accepted",
@@ -1276,6 +1471,8 @@ func init() {
 			"an empty id list for a multi-fetch call and Limit values outside [1,10000] are run but only 'no data next to an error' is asserted",
 			"errors are classified with errors.As, the limiter's error with errors.Is; error texts are never compared; nil and empty slices are equal; a non-nil but zero-valued *osm.OSM / *osm.Change next to an error is not counted as data",
 			"the multi-fetch functions of this library take plain ids (no version suffix form such as 2v3 exists in its API), so only the plain form is enumerated",
+			"transport faults: the statement lists statuses, not transport errors, so only the RoundTrip count (exactly one GET asked of the http.Client), the limiter (a Wait before the first GET, never more GETs than Waits) and 'some error, no data' are asserted; a body cut in mid-air asserts no error at all, only 'no data next to an error'; connection reuse is off in these cases because net/http itself replays a GET on a reused connection that dies before the first response byte",
+			"in an osm.Change an action (create/modify/delete) without elements compares equal whether nil or an empty document",
 			"Wait must be called at least once before the request (sequence numbers of one shared atomic counter); the number of Wait calls is not asserted",
 		},
 		Cases:      c20Cases,
